@@ -644,7 +644,7 @@ func UnfoldBooleanAction(unfoldOpts BooleanUnfold) RewriteAction {
 		newOpts := []ast.Option{
 			{
 				Name:     unfoldOpts.OptionTrue,
-				Comments: option.Comments,
+				Comments: append([]string{}, option.Comments...),
 				Assignments: []ast.Assignment{
 					ast.ConstantAssignment(option.Assignments[0].Path, true),
 				},
@@ -653,7 +653,7 @@ func UnfoldBooleanAction(unfoldOpts BooleanUnfold) RewriteAction {
 
 			{
 				Name:     unfoldOpts.OptionFalse,
-				Comments: option.Comments,
+				Comments: append([]string{}, option.Comments...),
 				Assignments: []ast.Assignment{
 					ast.ConstantAssignment(option.Assignments[0].Path, false),
 				},
